@@ -561,4 +561,202 @@ mod verif_replay_interp {
             );
         assert_eq!(run(&compound, &[]), fin("pass"));
     }
+
+    // ---- C01 / C02 / C06: pseudo-random conformant documents, legality of the configuration after every macrostep ----
+
+    struct Rng(u64);
+    impl Rng {
+        fn next(&mut self, n: usize) -> usize {
+            self.0 = self.0.wrapping_mul(6364136223846793005).wrapping_add(1442695040888963407);
+            ((self.0 >> 33) as usize) % n
+        }
+    }
+
+    #[derive(Clone, Copy, PartialEq, Debug)]
+    enum Kind {
+        Atomic,
+        Compound,
+        Parallel,
+        Final,
+        History,
+    }
+
+    struct Node {
+        name: String,
+        kind: Kind,
+        parent: Option<usize>,
+        children: Vec<usize>,
+    }
+
+    /// builds a random state tree below the root (index 0 = <scxml>), depth <= 3; a compound state's first child is a
+    /// proper state, finals and histories come last; children of a parallel are states (plus an optional history)
+    fn gen_tree(rng: &mut Rng) -> Vec<Node> {
+        fn add(nodes: &mut Vec<Node>, parent: usize, kind: Kind) -> usize {
+            let id = nodes.len();
+            nodes.push(Node { name: format!("n{}", id), kind, parent: Some(parent), children: Vec::new() });
+            nodes[parent].children.push(id);
+            id
+        }
+        fn fill(nodes: &mut Vec<Node>, rng: &mut Rng, me: usize, depth: usize) {
+            let in_parallel = nodes[me].kind == Kind::Parallel;
+            let n_states = if in_parallel { 2 + rng.next(2) } else { 1 + rng.next(3) };
+            for _ in 0..n_states {
+                let kind = if depth >= 3 {
+                    Kind::Atomic
+                } else {
+                    match rng.next(6) {
+                        0 | 1 => Kind::Compound,
+                        2 => Kind::Parallel,
+                        _ => Kind::Atomic,
+                    }
+                };
+                let c = add(nodes, me, kind);
+                if kind == Kind::Compound || kind == Kind::Parallel {
+                    fill(nodes, rng, c, depth + 1);
+                }
+            }
+            if !in_parallel && rng.next(3) == 0 {
+                add(nodes, me, Kind::Final);
+            }
+            if me != 0 && rng.next(3) == 0 {
+                add(nodes, me, Kind::History);
+            }
+        }
+        let mut nodes = vec![Node { name: "root".to_string(), kind: Kind::Compound, parent: None, children: Vec::new() }];
+        fill(&mut nodes, rng, 0, 1);
+        nodes
+    }
+
+    fn render(nodes: &Vec<Node>, rng: &mut Rng) -> String {
+        fn targets(nodes: &Vec<Node>) -> Vec<usize> {
+            (1..nodes.len()).collect()
+        }
+        fn emit(nodes: &Vec<Node>, rng: &mut Rng, me: usize, out: &mut String) {
+            let n = &nodes[me];
+            match n.kind {
+                Kind::Final => {
+                    out.push_str(&format!("<final id=\"{}\"/>\n", n.name));
+                }
+                Kind::History => {
+                    let p = n.parent.unwrap();
+                    let sibs: Vec<usize> = nodes[p].children.iter().cloned().filter(|c| nodes[*c].kind != Kind::History && nodes[*c].kind != Kind::Final).collect();
+                    let t = sibs[rng.next(sibs.len())];
+                    let ty = if rng.next(2) == 0 { "shallow" } else { "deep" };
+                    out.push_str(&format!("<history id=\"{}\" type=\"{}\"><transition target=\"{}\"/></history>\n", n.name, ty, nodes[t].name));
+                }
+                _ => {
+                    let tag = if n.kind == Kind::Parallel { "parallel" } else { "state" };
+                    let mut attrs = String::new();
+                    if n.kind == Kind::Compound && rng.next(2) == 0 {
+                        let cs: Vec<usize> = n.children.iter().cloned().filter(|c| nodes[*c].kind != Kind::History && nodes[*c].kind != Kind::Final).collect();
+                        attrs = format!(" initial=\"{}\"", nodes[cs[rng.next(cs.len())]].name);
+                    }
+                    out.push_str(&format!("<{} id=\"{}\"{}>\n", tag, n.name, attrs));
+                    let all = targets(nodes);
+                    for _ in 0..rng.next(3) {
+                        let ev = ["e1", "e2", "e3"][rng.next(3)];
+                        let t = all[rng.next(all.len())];
+                        let ty = if rng.next(3) == 0 { " type=\"internal\"" } else { "" };
+                        out.push_str(&format!("<transition event=\"{}\" target=\"{}\"{}/>\n", ev, nodes[t].name, ty));
+                    }
+                    for c in n.children.clone() {
+                        emit(nodes, rng, c, out);
+                    }
+                    out.push_str(&format!("</{}>\n", tag));
+                }
+            }
+        }
+        let mut out = String::from("<scxml xmlns=\"http://www.w3.org/2005/07/scxml\" version=\"1.0\" datamodel=\"rfsm-expression\">\n");
+        for c in nodes[0].children.clone() {
+            emit(nodes, rng, c, &mut out);
+        }
+        out.push_str("</scxml>");
+        out
+    }
+
+    /// None if `config` (state names) is a legal configuration of the tree, else what is wrong
+    fn illegal(nodes: &Vec<Node>, config: &Vec<String>) -> Option<String> {
+        // the <scxml> element itself is part of the reported configuration under a generated name
+        let config: Vec<String> = config.iter().filter(|n| !n.starts_with("__id")).cloned().collect();
+        let config = &config;
+        let active = |i: usize| config.iter().any(|n| *n == nodes[i].name);
+        for name in config {
+            if !nodes.iter().any(|n| n.name == *name) {
+                return Some(format!("unknown state {}", name));
+            }
+        }
+        if nodes[0].children.iter().filter(|c| active(**c)).count() != 1 {
+            return Some("not exactly one active child of the root".to_string());
+        }
+        for i in 1..nodes.len() {
+            if !active(i) {
+                continue;
+            }
+            let n = &nodes[i];
+            if n.kind == Kind::History {
+                return Some(format!("history {} is active", n.name));
+            }
+            if let Some(p) = n.parent {
+                if p != 0 && !active(p) {
+                    return Some(format!("{} is active but its parent is not", n.name));
+                }
+            }
+            let kids: Vec<usize> = n.children.iter().cloned().filter(|c| nodes[*c].kind != Kind::History).collect();
+            let act = kids.iter().filter(|c| active(**c)).count();
+            match n.kind {
+                Kind::Compound if act != 1 => return Some(format!("compound {} has {} active children", n.name, act)),
+                Kind::Parallel if act != kids.len() => return Some(format!("parallel {} has {} of {} children active", n.name, act, kids.len())),
+                _ => {}
+            }
+        }
+        None
+    }
+
+    /// runs the document, feeds the events, then the platform cancel event: the reported final configuration is the
+    /// configuration after the last macrostep (or the top-level final that ended the session earlier)
+    fn config_after(doc: &str, events: &[&str]) -> Result<Vec<String>, String> {
+        let mut evs: Vec<&str> = events.to_vec();
+        evs.push(crate::fsm::EVENT_CANCEL_SESSION);
+        run(doc, &evs)
+    }
+
+    /// C01 (bounded, pseudo-random): for 150 (thorough tier: 1500) generated conformant documents and every event sequence of length <= 2 over
+    /// three event names (plus 3 longer ones), the configuration after each macrostep is legal; C02: running the same
+    /// document and history again gives the same configuration
+    #[test]
+    fn verif_replay_interp_random_documents_legal_configurations() {
+        let deep = std::env::var("VERIF_THOROUGH").is_ok();
+        let docs = if deep { 1500 } else { 150 };
+        let mut rng = Rng(0x5eed_2026);
+        let names = ["e1", "e2", "e3"];
+        for d in 0..docs {
+            let nodes = gen_tree(&mut rng);
+            let doc = render(&nodes, &mut rng);
+            let mut seqs: Vec<Vec<&str>> = vec![vec![]];
+            for a in names {
+                seqs.push(vec![a]);
+                for b in names {
+                    seqs.push(vec![a, b]);
+                }
+            }
+            for _ in 0..3 {
+                seqs.push((0..(3 + rng.next(4))).map(|_| names[rng.next(3)]).collect());
+            }
+            for seq in &seqs {
+                let c1 = config_after(&doc, seq);
+                match &c1 {
+                    Ok(cfg) => {
+                        if let Some(why) = illegal(&nodes, cfg) {
+                            panic!("document #{} after events {:?}: illegal configuration {:?}: {}\n{}", d, seq, cfg, why, doc);
+                        }
+                    }
+                    Err(e) => panic!("document #{} with events {:?}: {}\n{}", d, seq, e, doc),
+                }
+                if seq.len() == 2 {
+                    let c2 = config_after(&doc, seq);
+                    assert_eq!(c1, c2, "document #{} with events {:?} is not reproducible\n{}", d, seq, doc);
+                }
+            }
+        }
+    }
 }
